@@ -5,6 +5,7 @@ chromosome); construction, to_dict, reductions, histogram and back-conversion (g
 reports which constructor branches (prefix/postfix/gap/touching combinations) were actually taken.
 """
 import random
+import re
 
 import numpy as np
 
@@ -63,6 +64,11 @@ def gen_expr(rng, depth, leaves, want="any"):
     num_leaves = [i for i, k in enumerate(leaves) if k in ("int", "float")]
     bool_leaves = [i for i, k in enumerate(leaves) if k == "bool"]
     def num(d):
+        if bool_leaves and rng.random() < 0.12:
+            # a mask used as a number: mask * 1, mask + 0, 2 * mask (NumPy promotes the booleans to integers / floats)
+            lf, sc = ("leaf", rng.choice(bool_leaves)), ("scalar", rng.choice([1, 0, 1, 2, 1.0]))
+            op = rng.choice(["*", "+"])
+            return (op, lf, sc) if rng.random() < 0.7 else (op, sc, lf)
         if d == 0 or rng.random() < 0.3:
             if not num_leaves:
                 return None
@@ -155,6 +161,7 @@ def show(tree):
 
 def run(ctx):
     from bnpmon.util import lazy_selection
+    from bnpmon.ctx import originates_in_library
     import bionumpy as bnp
     from bionumpy.datatypes import BedGraph, Interval
     rng = ctx.rng
@@ -355,6 +362,135 @@ def run(ctx):
             ctx.check("get_data", ok, "get_data/back-conversion:%s" % ("intervals" if typ == "bool" else "bedgraph"), "get_data() of %s does not expand back to the dense array (ordered/non-overlapping: %s)" % (txt, order_ok),
                       dict(wit, expr=txt, records=list(zip(chroms, starts, stops, vals))[:12]), (key, txt, "back"))
             str(res)
+
+    # ---- the same expressions over STREAMED genomic arrays (tracks / masks built from streams of chunks), values held in any numeric type -----
+    def streamed_expressions(case):
+        from bionumpy.streams import NpDataclassStream
+        r = random.Random(case["seed"])
+        nchrom = r.randint(1, 3)
+        names = r.sample(["chr1", "chr2", "chr10", "chrX"], nchrom)
+        sizes = {n: r.randint(1, maxsize) for n in names}
+        genome = bnp.Genome.from_dict(sizes)
+        kinds = [r.choice(["int", "float", "bool", "int"]) for _ in range(r.randint(1, 3))]
+        dts = [{"int": r.choice([np.int64, np.int64, np.int8, np.int16, np.int32]), "float": r.choice([np.float64, np.float64, np.float32]), "bool": bool}[k] for k in kinds]
+        recs_all, denses = [], []
+        for kind, dt in zip(kinds, dts):
+            recs = {n: [(a_, b_, (v_ if kind != "int" or abs(v_) < 100 else 7)) for a_, b_, v_ in gen_records(r, sizes[n], kind)] for n in names}
+            recs_all.append(recs)
+            d = {}
+            for n in names:
+                a = np.zeros(sizes[n], dtype=dt)
+                for s_, e_, v_ in recs[n]:
+                    a[s_:e_] = v_
+                d[n] = a
+            denses.append(d)
+
+        def make_leaf(i):
+            kind, dt, recs = kinds[i], dts[i], recs_all[i]
+            flat = [(n, s_, e_, v_) for n in names for (s_, e_, v_) in recs[n]]
+            cut = r.randint(0, len(flat))
+            parts = [p_ for p_ in (flat[:cut], flat[cut:]) if p_]
+            if kind == "bool":
+                mk = lambda rows: Interval([x[0] for x in rows], np.array([x[1] for x in rows], dtype=int), np.array([x[2] for x in rows], dtype=int))
+                return genome.get_intervals(NpDataclassStream(iter([mk(p_) for p_ in parts]), dataclass=Interval)).get_mask()
+            mk = lambda rows: BedGraph([x[0] for x in rows], np.array([x[1] for x in rows], dtype=int), np.array([x[2] for x in rows], dtype=int), np.array([x[3] for x in rows], dtype=dt))
+            return genome.get_track(NpDataclassStream(iter([mk(p_) for p_ in parts]), dataclass=BedGraph))
+
+        tree, typ = gen_expr(r, r.randint(1, 2), kinds)
+        if tree is None or tree[0] == "leaf":
+            return
+
+        def np_scalars(t):
+            # some scalar operands are NumPy scalars (the result of another reduction, an element of an array) instead of Python numbers
+            if t[0] == "scalar":
+                v = t[1]
+                if r.random() < 0.4:
+                    v = (np.int64(v) if r.random() < 0.7 else np.int8(v)) if isinstance(v, int) else (np.float64(v) if r.random() < 0.7 else np.float32(v))
+                return ("scalar", v)
+            if t[0] == "leaf":
+                return t
+            return (t[0],) + tuple(np_scalars(x) for x in t[1:])
+        tree = np_scalars(tree)
+        def leaf_ids(t):
+            return [t[1]] if t[0] == "leaf" else ([] if t[0] == "scalar" else [i for x in t[1:] for i in leaf_ids(x)])
+        leaves_used = leaf_ids(tree)
+        used = sorted(set(leaves_used))
+        if len(leaves_used) != len(set(leaves_used)):
+            return          # a stream is read once: every streamed operand appears once in the expression
+        txt = show(tree)
+        wit = {"sizes": sizes, "kinds": kinds, "dtypes": [np.dtype(x).name for x in dts], "records": [{n: list(map(list, v)) for n, v in recs.items()} for recs in recs_all], "expr": txt, "seed": case["seed"]}
+        with np.errstate(all="ignore"):
+            try:
+                exp = {n: evaluate(tree, [d[n] for d in denses]) for n in names}
+            except TypeError:
+                return
+        leaves = {int(i): make_leaf(int(i)) for i in used}
+        try:
+            with np.errstate(all="ignore"):
+                node = evaluate(tree, [leaves.get(i) for i in range(len(kinds))])
+                data = node.get_data()
+                data = data.compute() if hasattr(data, "compute") and not hasattr(data, "chromosome") else data
+        except Exception as e:
+            if not originates_in_library(e):
+                raise
+            ctx.observe("streamed-expression-refused:%s" % type(e).__name__)
+            return
+        chroms = [str(x) for x in data.chromosome.tolist()]
+        starts, stops = np.asarray(data.start).tolist(), np.asarray(data.stop).tolist()
+        vals = np.asarray(data.value).tolist() if hasattr(data, "value") else [True] * len(starts)
+        back = {n: np.zeros(sizes[n], dtype=np.asarray(exp[n]).dtype) for n in names}
+        inside = True
+        for c, a, b, v in zip(chroms, starts, stops, vals):
+            if c not in sizes or not (0 <= a <= b <= sizes[c]):
+                inside = False
+                continue
+            back[c][a:b] = v
+        # a mask where numbers are expected (or the other way round) is not the same array, even where True reads as 1
+        exp_is_mask = np.asarray(exp[names[0]]).dtype == bool
+        got_is_mask = not hasattr(data, "value") or np.asarray(data.value).dtype == bool
+        ctx.check("expression:streamed", exp_is_mask == got_is_mask, "expression/mask-instead-of-numbers:streamed-arrays" if got_is_mask else "expression/numbers-instead-of-mask:streamed-arrays",
+                  "%s over streamed arrays gives %s, NumPy on the dense arrays gives dtype %s" % (txt, "a mask (intervals)" if got_is_mask else "numbers", np.asarray(exp[names[0]]).dtype), dict(wit), None)
+        bad = next((n for n in names if not same(back[n], exp[n], False)), None)
+        narrow = any(np.dtype(dts[int(i)]).itemsize < 8 and kinds[int(i)] != "bool" for i in used)
+        ctx.check("expression:streamed", inside and bad is None, "expression/value:streamed-arrays%s" % (":values-held-in-a-narrow-type" if narrow else ""),
+                  "%s over streamed arrays on %s: got %r, NumPy on the dense arrays %r" % (txt, bad, back[bad].tolist() if bad else None, np.asarray(exp[bad]).tolist() if bad else None), dict(wit, chrom=bad), (tuple(sizes.items()), repr(recs_all), txt))
+        # reductions over fresh streams of the same records
+        cat = np.concatenate([np.asarray(exp[n]) for n in names])
+        try:
+            with np.errstate(all="ignore"):
+                leaves = {int(i): make_leaf(int(i)) for i in used}
+                s_ = bnp.compute(evaluate(tree, [leaves.get(i) for i in range(len(kinds))]).sum())
+            ok_sum = bool(np.isclose(float(s_), float(cat.sum(dtype=(np.float64 if cat.dtype.kind == "f" else None))), rtol=1e-6, atol=1e-6))
+            if cat.dtype.kind in "iu" and cat.dtype.itemsize < 8:
+                ok_sum = True if ok_sum else None       # sums of narrow integers: the accumulator type is not part of the statement
+            if ok_sum is not None:
+                ctx.check("sum:streamed", ok_sum, "np.sum:streamed-arrays", "sum of %s over streamed arrays = %r, dense %r" % (txt, float(s_), float(cat.sum())), dict(wit, got=float(s_), expected=float(cat.sum())), (tuple(sizes.items()), repr(recs_all), txt, "sum"))
+        except Exception as e:
+            if not originates_in_library(e):
+                raise
+            ctx.observe("streamed-sum-refused:%s" % type(e).__name__)
+        if cat.dtype != bool and float(cat.max()) > float(cat.min()):
+            # a histogram with a number of bins and no range: the dense result, or a refusal (the chromosomes have their own value ranges)
+            bins = r.choice([2, 3, 4])
+            eh, ee = np.histogram(cat, bins=bins)
+            try:
+                leaves = {int(i): make_leaf(int(i)) for i in used}
+                with np.errstate(all="ignore"):
+                    h_ = bnp.compute(np.histogram(evaluate(tree, [leaves.get(i) for i in range(len(kinds))]), bins=bins))
+                gh = (np.asarray(h_[0]).tolist(), np.asarray(h_[1]).tolist())
+            except Exception as e:
+                if not originates_in_library(e):
+                    raise
+                gh = None
+                ctx.count("streamed_histogram_without_range_refused")
+            if gh is not None:
+                ctx.check("histogram:streamed", gh[0] == eh.tolist() and np.allclose(gh[1], ee), "np.histogram(no-range):streamed-arrays", "np.histogram(%s, bins=%d) over streamed arrays = %r, dense %r" % (txt, bins, gh, (eh.tolist(), ee.tolist())),
+                          dict(wit, got=gh, expected=[eh.tolist(), ee.tolist()]), (tuple(sizes.items()), repr(recs_all), txt, "hist"))
+        ctx.count("streamed_expressions")
+
+    for i in range(ctx.share(ctx.pick(1600, 20000))):
+        ctx.run_case(streamed_expressions, {"seed": rng.randrange(2 ** 40)})
+    ctx.floor("streamed_expressions", ctx.pick(20, 400))
 
     for i in range(ctx.share(ctx.pick(1600, 20000))):
         ctx.run_case(one, {"seed": rng.randrange(2 ** 40), "n_expr": 4})
